@@ -96,25 +96,23 @@ func runC05() {
 		must := row.Must
 		if row.Op == "byte" {
 			// the corruption is applied to the concrete frame (the model cannot know token bytes)
-			bi, ok := base[row.O]
-			if !ok {
-				vio.Fatal("no valid frame for %s", row.O)
-			}
-			b := rows[bi].S.Concretize(toks.resolver(&rows[bi]))
-			stream = append([]byte{}, b...)
-			switch row.A {
-			case 1:
-				stream[row.I] ^= 1 << uint(row.I%8)
-			case 2:
-				stream[row.I] = 0x00
-			case 3:
-				stream[row.I] = 0xFF
-			}
-			if bytes.Equal(stream, b) {
-				st.skipped++ // the byte already had that value: not a corruption
-				continue
-			}
-			must = "reject"
+			if bi, ok := base[row.O]; ok {
+				b := rows[bi].S.Concretize(toks.resolver(&rows[bi]))
+				stream = append([]byte{}, b...)
+				switch row.A {
+				case 1:
+					stream[row.I] ^= 1 << uint(row.I%8)
+				case 2:
+					stream[row.I] = 0x00
+				case 3:
+					stream[row.I] = 0xFF
+				}
+				if bytes.Equal(stream, b) {
+					st.skipped++ // the byte already had that value: not a corruption
+					continue
+				}
+				must = "reject"
+			} // else (single-row replay): the model's own mutated stream is used
 		}
 		if must != "same" || row.Op != "valid" {
 			st.nontrivial++
